@@ -1029,7 +1029,7 @@ def pad_tensor(input_image: torch.Tensor, target_shape: tuple[int, int], value: 
         diff = target_dim - input_dim
         pad_before = max(0, diff // 2)
         pad_after = max(0, diff - pad_before)
-        pad.extend([pad_before, pad_after])
+        pad.extend([pad_after, pad_before])
 
     pad = pad[::-1]
     padded_image = torch.nn.functional.pad(input_image, pad, mode="constant", value=value)
